@@ -327,3 +327,25 @@ def gen_compile_program(rng):
         else:
             clauses.append('%s :- %s.' % (head, bg.body(rng.randrange(0, 4))))
     return '\n'.join(clauses) + '\n'
+
+
+_PREWARMED = False
+
+
+def prewarm_compiler(n=60):
+    """compiles a fixed corpus in the zygote so that forked runs inherit a warm ANTLR DFA
+    cache (speed only: the cache never changes what a parse returns)"""
+    global _PREWARMED
+    if _PREWARMED:
+        return
+    import io, random, contextlib
+    from yldprolog.compiler import compile_prolog_from_string
+    rng = random.Random(20260927)
+    for i in range(n):
+        src = world_source(gen_world(rng)) if i % 3 else gen_compile_program(rng)
+        try:
+            with contextlib.redirect_stderr(io.StringIO()):
+                compile_prolog_from_string(src)
+        except Exception:
+            pass
+    _PREWARMED = True
